@@ -7,6 +7,16 @@ import vlib
 from vlib import vbytes, vlist, vopt, vbool, parse_val
 
 NEED_RG = True
+MANIFEST = dict(
+    text="Coq theorems (all templates, capture tables, matchers): interpolate = reference-grammar expansion; "
+         "Replacer::replace_all = text between successive matches + expansions + tail; nothing dropped on a "
+         "terminated line; D2 refuted by witness. Tie to the code: hand-written model run (extracted OCaml) "
+         "against the real crates on generated cases, plus the regex crate as oracle on every matching line.",
+    note="trusted: Coq kernel, extraction, OCaml driver, Rust harness; regex-automata modelled as a Section "
+         "variable (captures tabulated per case); multi-line (-U) replacement path is exercised by the oracle "
+         "only, not modelled",
+    technique="Coq proof over executable model + extracted-model/implementation correspondence + regex-crate oracle",
+    design="§7 C19")
 KNOWN_D2 = "EmptyMatchAtEndOfUnterminatedLastLine"
 
 NAMES = [b"x", b"y", b"word", b"n1", b"_a"]
